@@ -100,7 +100,7 @@ class CodecUnit(Unit):
             frames[topic] = f
             src[topic] = dict(f=f, kind=kind, fmt=fmt, wr=wr, jc=jc, P=f.entry_pix, data=dict(f.f['_Frame__data']), jpg0=f.f['_Frame__jpg'], shapef=f.f['_Frame__shapef'])
         ex.replay_info = dict(specs=[[list(k), ne] for k, ne in specs], outs_jpg=oj)
-        ex.model_vars = {}
+        ex.model_vars = {f'{d}_t{i}': z3.Int(f'{d}_t{i}') for i in range(len(specs)) for d in ('h', 'w')}
         try:
             tm = ex.call_closure(closure(MQ, 'MQ.frames2topicmsgs'), [frames, oj], {})
             back = ex.call_closure(closure(MQ, 'MQ.topicmsgs2frames'), [tm], {})
@@ -158,10 +158,11 @@ class CodecUnit(Unit):
         from openfilter.filter_runtime.mq import MQ as RMQ
         info = failure['extra']
         obs = []
+        mdl = failure.get('model') or {}
         for strided in (False, True):
             frames = {}
             for i, (k, ne) in enumerate(info['specs']):
-                f = F.native_frame(dict(kind=k[0], fmt=k[1], wr=k[2], jpgcached=k[3], caches=[]))
+                f = F.native_frame(dict(kind=k[0], fmt=k[1], wr=k[2], jpgcached=k[3], caches=[], h=mdl.get(f'h_t{i}'), w=mdl.get(f'w_t{i}')))
                 if strided and f.has_image and f.has_raw and not f.has_jpg:
                     img = f.image
                     view = np.ascontiguousarray(np.swapaxes(img, 0, 1)).swapaxes(0, 1)      # same logical pixels, axis-permuted (non C-contiguous) memory
